@@ -31,6 +31,13 @@ def run(ctx):
                         "real-time order of invocation/response events = order of appends to one mutex-protected log"]
     if ctx.replay:
         rp = json.load(open(ctx.replay))["scenario"]
+        if rp.get("kind") == "login":
+            rp.pop("kind")
+            for rr in ctx.run_harness("c10", [{"style": "ssh", "script": ["shell"], "class": "ok", "sent": []}] * 0 + [rp]):
+                ctx.count()
+                if not rr["ok"] and "bytes-after-login" in rr.get("sig", ""):
+                    ctx.violation("C20:channel-open:requeue-order", rr["detail"], dict(rp, kind="login"))
+            return
         if rp.get("kind") == "trace":
             lines = [json.dumps(e) for e in rp["trace"]]
             validate_traces(ctx, "QueueTrace", lines, "C20:stress:not-linearizable", "replayed history")
@@ -82,6 +89,21 @@ def run(ctx):
         blk = split_blocks(lines)[0]
         ctx.sample({"kind": "concurrent-history-prefix", "events": [json.loads(x) for x in blk[:12]]})
     validate_traces(ctx, "QueueTrace", lines, "C20:stress:not-linearizable", "concurrent history of util.Queue")
+    # 4. the queue as the channel uses it: what the in-channel login read is put back IN FRONT of what the read loop queued
+    #    meanwhile (Requeue at the end of Channel.Open); admitted logins whose device goes on talking after the first prompt
+    logins = []
+    for style, script, sent in (("telnet", ["banner", "askuser", "askpass", "shell"], ["askuser", "askpass"]), ("telnet", ["askuser", "askpass", "shell"], ["askuser", "askpass"]),
+                                ("ssh", ["banner", "askpass", "shell"], ["askpass"]), ("ssh", ["askpassphrase", "askpass", "shell"], ["askpassphrase", "askpass"]),
+                                ("ssh", ["shell"], []), ("telnet", ["banner", "askpass", "shell"], ["askpass"])):
+        for seg in ("one", "rand", "rand"):
+            for _ in range(2):       # scenarios with an even index carry the trailer
+                logins.append({"style": style, "script": script, "class": "ok", "sent": sent, "seg": seg})
+    res = ctx.run_harness("c10", logins, timeout=600)
+    for rr in res:
+        ctx.count()
+        if not rr["ok"] and "bytes-after-login" in rr.get("sig", ""):
+            sc = logins[rr["id"]]
+            ctx.violation("C20:channel-open:requeue-order", "what the login read was not put back in front of the queue: " + rr["detail"], dict(sc, kind="login"))
     for rep in ctx.race_reports:
         if "util/queue.go" in rep or "util.(*Queue)" in rep:
             ctx.violation("C20:race:queue", "race detector report involving util.Queue:\n" + rep[:1500],
